@@ -1691,7 +1691,10 @@ def check_C43(rep):
         for _ in range(n_tr):
             # emitter alone + looped into the detector
             st = ts_emitter_stim(rng, L, emit_n, bursts=rng.randrange(1, 4), has_cfg=bench.has_cfg)
-            add(bench.run(with_reset(st, lambda: dict(EM_IDLE, rst=True)), loop=True), "emitter->detector")
+            st = with_reset(st, lambda: dict(EM_IDLE, rst=True))
+            if any(x["rst"] for x in st):      # a burst re-started after the reset (start still held) must be able to drain
+                st = st + [dict(EM_IDLE)] * (emit_n * L + 8)
+            add(bench.run(st, loop=True), "emitter->detector")
             # detector on streams composed of whole sets of several kinds, gaps, stray words
             ws = ts_detector_stream(rng, bench, det_n, events=rng.randrange(4, 10) if det_n <= 8 else 4,
                                     hazards=("adjacent", "gap_foreign") if rng.random() < 0.5 else ())
